@@ -73,7 +73,9 @@ func sameECPub(a, b *ecdsa.PublicKey) bool {
 func scenarioC14(r *Run) {
 	t := r.T
 	ent := NewEntropy(uint64(t.U32("entropy.seed")))
-	switch t.Pick([]int{6, 1, 2, 3, 2}, "c14.path") {
+	switch t.Pick([]int{6, 1, 2, 3, 2, 1}, "c14.path") {
+	case 5:
+		c14Rotate(r, t, ent)
 	case 4:
 		c14Records(r, t, ent)
 	case 0: // EC key from Go
@@ -445,6 +447,132 @@ func c14GoEd(r *Run, t *tape.Tape, priv ed25519.PrivateKey, ent *Entropy) {
 	r.Outcome("chain-ok")
 }
 
+// c14Rotate: one Key object that the application keeps and loads with the
+// next key pair when keys are rotated (the exported fields are assigned, the
+// object stays).  Every conversion answers for what the object holds now.
+func c14Rotate(r *Run, t *tape.Tape, ent *Entropy) {
+	type gokey struct {
+		priv crypto.Signer
+		pub  crypto.PublicKey
+		alg  int64
+		name string
+	}
+	gen := func(ed bool) gokey {
+		if ed {
+			p := ed25519.NewKeyFromSeed(t.Bytes(32, "c14.rot.seed"))
+			return gokey{p, p.Public(), int64(cose.AlgorithmEdDSA), "Ed25519"}
+		}
+		kp := freshECKey(t)
+		return gokey{kp.Priv, kp.Pub, kp.Alg, kp.Curve.Params().Name}
+	}
+	ed := t.Bool(1, 3, "c14.rot.ed")
+	a := gen(ed)
+	b := gen(ed != t.Bool(1, 5, "c14.rot.otherkind"))
+	r.Op("KEY_ROTATE", "one Key object: %s key, used, then loaded with a %s key", a.name, b.name)
+	var held, next *cose.Key
+	var err error
+	r.Lib(func() { held, err = cose.NewKeyFromPrivate(a.priv) })
+	if err != nil {
+		r.Fail("newkey-from-private-fails/"+a.name, "NewKeyFromPrivate refused a valid key: %v", err)
+		return
+	}
+	// the object is used while it holds the first key
+	uses := 1 + t.Choose(15, "c14.rot.uses")
+	r.Lib(func() {
+		if uses&1 != 0 {
+			held.PrivateKey()
+		}
+		if uses&2 != 0 {
+			held.PublicKey()
+		}
+		if uses&4 != 0 {
+			held.Signer()
+		}
+		if uses&8 != 0 {
+			held.Verifier()
+		}
+	})
+	r.Lib(func() { next, err = cose.NewKeyFromPrivate(b.priv) })
+	if err != nil {
+		r.Fail("newkey-from-private-fails/"+b.name, "NewKeyFromPrivate refused a valid key: %v", err)
+		return
+	}
+	var want []byte
+	r.Lib(func() { want, err = next.MarshalCBOR() })
+	if err != nil {
+		r.Skip("second key does not encode")
+	}
+	// rotation: field by field (a struct assignment would be another object state altogether)
+	held.Type, held.Algorithm, held.Params = next.Type, next.Algorithm, next.Params
+	r.Fired("app.rotates-key-object-in-place")
+	var got []byte
+	r.Lib(func() { got, err = held.MarshalCBOR() })
+	r.Check()
+	if err != nil || !bytes.Equal(got, want) {
+		r.Fail("rotated-key-object-answers-for-old-key/MarshalCBOR", "a Key object loaded with another key pair encodes to %x (%v), the new key alone to %x", got, err, want)
+		return
+	}
+	var gp, gpub any
+	r.Lib(func() { gp, err = held.PrivateKey() })
+	r.Check()
+	if err != nil || !samePrivate(gp, b.priv) {
+		r.Fail("rotated-key-object-answers-for-old-key/PrivateKey", "PrivateKey() of a Key object that was used (mask %d) and then loaded with another %s key pair does not give that key (%v)", uses, b.name, err)
+		return
+	}
+	r.Lib(func() { gpub, err = held.PublicKey() })
+	r.Check()
+	if err != nil || !samePublic(gpub, b.pub) {
+		r.Fail("rotated-key-object-answers-for-old-key/PublicKey", "PublicKey() of a Key object that was used (mask %d) and then loaded with another %s key pair does not give that key (%v)", uses, b.name, err)
+		return
+	}
+	var sg cose.Signer
+	var vf cose.Verifier
+	r.Lib(func() { sg, err = held.Signer() })
+	if err != nil {
+		r.Fail("rotated-key-object-answers-for-old-key/Signer", "Signer() refused: %v", err)
+		return
+	}
+	r.Lib(func() { vf, err = held.Verifier() })
+	if err != nil {
+		r.Fail("rotated-key-object-answers-for-old-key/Verifier", "Verifier() refused: %v", err)
+		return
+	}
+	content := t.Bytes(1+t.Choose(64, "c14.content.n"), "c14.content")
+	var sig []byte
+	r.Lib(func() { sig, err = sg.Sign(ent, content) })
+	r.Check()
+	if err != nil || !refcose.ValidSignature(b.alg, b.pub, content, sig) {
+		r.Fail("rotated-key-object-answers-for-old-key/Signer", "the signer obtained after the rotation does not sign for the key the object holds now (%v)", err)
+		return
+	}
+	// a signature made with the new key by the standard library
+	var rsig []byte
+	if ek, ok := b.priv.(ed25519.PrivateKey); ok {
+		rsig = ed25519.Sign(ek, content)
+	} else {
+		rsig = sig
+	}
+	r.Lib(func() { err = vf.Verify(content, rsig) })
+	r.Check()
+	if err != nil {
+		r.Fail("rotated-key-object-answers-for-old-key/Verifier", "the verifier obtained after the rotation refuses a signature of the key the object holds now: %v", err)
+		return
+	}
+	r.Outcome("rotated/" + a.name + "->" + b.name)
+}
+
+func samePrivate(got any, want crypto.Signer) bool {
+	switch w := want.(type) {
+	case ed25519.PrivateKey:
+		g, ok := got.(ed25519.PrivateKey)
+		return ok && bytes.Equal(g, w)
+	case *ecdsa.PrivateKey:
+		g, ok := got.(*ecdsa.PrivateKey)
+		return ok && g.D.Cmp(w.D) == 0 && sameECPub(&g.PublicKey, &w.PublicKey)
+	}
+	return false
+}
+
 // c14Peer: a valid key written by a peer (reference encoder; coordinates full
 // length, d possibly trimmed) converts to the Go key it was derived from.
 func c14Peer(r *Run, t *tape.Tape, ent *Entropy) {
@@ -710,6 +838,19 @@ func scenarioC15(r *Run) {
 	r.Lib(func() { s, serr = k.Signer() })
 	r.Lib(func() { v, verr2 = k.Verifier() })
 	r.Check()
+	{
+		// what an accepted key re-encodes to does not depend on whether it was
+		// used in between (asked for its signer, verifier, Go keys, algorithm)
+		r.Lib(func() { k.PublicKey(); k.PrivateKey(); k.AlgorithmOrDefault() })
+		var enc3 []byte
+		var err3 error
+		r.Lib(func() { enc3, err3 = k.MarshalCBOR() })
+		r.Check()
+		if err3 != nil || !bytes.Equal(enc3, enc1) {
+			r.Fail("reencoding-changes-once-the-key-was-used", "an accepted key re-encodes differently after Signer()/Verifier()/PublicKey()/PrivateKey()/AlgorithmOrDefault() were called on it (%v)\nbefore: %x\nafter:  %x", err3, enc1, enc3)
+			return
+		}
+	}
 	tagged := false
 	if _, n := strip55799(stored); n > 0 {
 		tagged = true
